@@ -38,12 +38,13 @@
  * and once ALONE (every thread's workload in a thread of its own on a fresh context with a fresh shared tree); the per
  * operation results (return codes, FNV hashes of printed output, paths, error code/message/path/apptag) must be equal.
  *
- * Output (one line; HANG when a case does not finish within 20 s, 60 s under ThreadSanitizer):
+ * Output (one line; HANG when a case does not finish within 20 s, 40 s under ThreadSanitizer):
  *   ok | DIFF r<rep>t<thread>o<op>:<op text>:<concurrent>!=<alone>
  *   dict=<strings after setup>:<strings after everything of the last rep was freed>
  *   leak=<not-freed warnings>:<of them: cached canonical strings of shared-tree values (case not warm)>
  *   lock=<table accesses checked>:<accesses without the table's lock held>   (dict.hash_tab under dict.lock, err_ht under
  *        lyb_hash_lock; recorded by the --wrap wrappers below)
+ *   pok=<parse operations that gave a valid tree and passed the whole pipeline, alone>/<parse operations>
  *   dangling=<times the H hook saw the arena reallocated between ly_err_get_rec()'s unlock and the caller's dereference>
  *   res=...  (flag v)    left=<hex>  (the first strings left in the dictionary)
  *   tsan=<n>[|kind~frames of stack 1/frames of stack 2]*   (ThreadSanitizer build only; reports parsed from stderr)
@@ -898,8 +899,30 @@ __tsan_default_suppressions(void)
 
 #endif
 
-static int err_fd = -1;
+static int err_fd = -1, orig_err = -1;
 static off_t err_pos;
+
+/* a fatal signal: hand the reports captured during the current case to the real stderr (the harness keeps the stderr of
+ * a crashed driver), then die by the signal */
+static void
+on_fatal(int sig)
+{
+    if ((err_fd >= 0) && (orig_err >= 0)) {
+        char buf[4096];
+        off_t pos = err_pos;
+        ssize_t n;
+        int budget = 16;
+
+        while ((budget-- > 0) && ((n = pread(err_fd, buf, sizeof buf, pos)) > 0)) {
+            if (write(orig_err, buf, (size_t)n) < 0) {
+                break;
+            }
+            pos += n;
+        }
+    }
+    signal(sig, SIG_DFL);
+    raise(sig);
+}
 
 static void
 tsan_capture_init(void)
@@ -910,7 +933,11 @@ tsan_capture_init(void)
     err_fd = mkstemp(path);
     if (err_fd >= 0) {
         unlink(path);
+        orig_err = dup(2);
         dup2(err_fd, 2);
+        signal(SIGSEGV, on_fatal);
+        signal(SIGABRT, on_fatal);
+        signal(SIGBUS, on_fatal);
     }
 #endif
 }
@@ -1189,7 +1216,7 @@ main(void)
         int nthr, reps, sh, nd, base;
 
 #ifdef CONC_TSAN
-        alarm(60);
+        alarm(40);
 #else
         alarm(20);
 #endif
@@ -1292,12 +1319,27 @@ main(void)
                 free(cp);
             }
         }
+        /* parse operations that succeeded / all parse operations, in the runs alone */
+        int pok = 0, pall = 0;
+
+        for (int i = 0; !rc && (i < nthr); ++i) {
+            char *cp = strdup(c.f[base + i]), *sv = NULL, *op = strtok_r(cp, ",", &sv);
+
+            for (int j = 0; (j < TA[i].nres) && op; ++j, op = strtok_r(NULL, ",", &sv)) {
+                if (op[0] == 'P') {
+                    ++pall;
+                    pok += !strncmp(TA[i].res[j], "ok:", 3);
+                }
+            }
+            free(cp);
+        }
         if (rc) {
             printf("SETUP%d", rc);
         } else {
             printf("%s dict=%ld:%ld leak=%d:%d lock=%ld:%ld%s%s dangling=%ld", diff[0] ? diff : "ok", dict_base, dict_end,
                     notfreed - alone_notfreed, leak_attr, lock_checked, lock_viol, lock_viol ? "@" : "", lock_viol_where,
                     dangling);
+            printf(" pok=%d/%d", pok, pall);
             if (alone_notfreed) {
                 printf(" aloneleak=%d", alone_notfreed);
             }
